@@ -105,6 +105,7 @@ type Summary struct {
 	QUnsat        int
 	QUnknown      int
 	UnknownFeas   int
+	SolverCrashRetries int
 	Fallback      map[string]int // queries the primary solver left undecided and another solver decided: "solver verdict" -> count
 	SolverTime    time.Duration
 	MaxLoop       int
@@ -538,8 +539,27 @@ func (e *Engine) merge(res *PathResult) {
 }
 
 // runPath executes one path (a decision prefix extended until the harness returns).
-func (e *Engine) runPath(entry *ssa.Function, prefix []Decision, s *smt.Solver) (res *PathResult) {
+// runPath runs one path; a path that ends because the solver process died (not: timed out) is run
+// again, up to twice, on the restarted solver.
+func (e *Engine) runPath(entry *ssa.Function, prefix []Decision, s *smt.Solver) *PathResult {
+	skip := 0
+	for attempt := 0; ; attempt++ {
+		res, pushed := e.runPathOnce(entry, prefix, s, skip)
+		if res.Status == "inconclusive" && strings.Contains(res.Msg, "solver died") && attempt < 2 {
+			skip = pushed
+			e.mu.Lock()
+			e.Sum.SolverCrashRetries++
+			e.mu.Unlock()
+			continue
+		}
+		return res
+	}
+}
+
+func (e *Engine) runPathOnce(entry *ssa.Function, prefix []Decision, s *smt.Solver, skipPush int) (res *PathResult, pushed int) {
 	r := e.newRun(prefix, s)
+	r.skipPush = skipPush
+	defer func() { pushed = r.pushed }()
 	s.Reset()
 	res = r.res
 	res.Status = "ok"
@@ -603,7 +623,7 @@ func (e *Engine) runPath(entry *ssa.Function, prefix []Decision, s *smt.Solver) 
 		r.killThreads()
 	}()
 	r.runMain(entry)
-	return res
+	return res, r.pushed
 }
 
 // reportEngineFinding turns budget exhaustion / deadlock into a violation where the property says so.
